@@ -105,7 +105,7 @@ type State struct {
 func (x *FnExec) rootState() *State {
 	x.epochs++
 	s := &State{x: x, heap: map[string]*Term{}, cells: map[*ssa.Alloc]Value{}, epoch: x.epochs}
-	s.alloc = x.tc.Sym(fmt.Sprintf("ALLOC!%d", s.epoch), x.refSort())
+	s.alloc = x.tc.Sym(fmt.Sprintf("ALLOCROOT.%d", s.epoch), x.refSort())
 	x.addFact(x.intGt(s.alloc, x.refConst(0)))
 	return s
 }
